@@ -2,8 +2,8 @@
      - clean outcome: the reader returns (an object or a failure); it never performs an out-of-bounds store,
        never lets a C++ exception / assertion escape, never loops without consuming input;
      - allocation bound: the ghost counter stays below an explicit function of the file length;
-     - class invariants of the objects a reader may return (for Db: the invariant of C07 — a rectangular table,
-       the uid table enumerates the columns, role lists without repetition, made of live uids, pairwise disjoint).
+     - class invariants of the objects a reader may return (for Db: the invariant of C07 — a rectangular table, names
+       pairwise different, the uid table enumerates the columns, role lists without repetition, made of live uids, pairwise disjoint).
    Boolean versions are used by Run.v; their equivalence with the Prop versions is proved in Proofs_wf.v. *)
 From Coq Require Import List ZArith QArith Bool.
 From Gst Require Import C09.Model C09.Readers.
@@ -21,7 +21,7 @@ Definition loaded {A} (o : outcome A) (a : A) : Prop := exists g, o = Loaded a g
 (* ------------------------------------------------------------------ class invariants *)
 Definition wf_db (d : db) : Prop :=
   0 <= d_ncol d /\ 0 <= d_nech d /\
-  zlen (d_names d) = d_ncol d /\
+  zlen (d_names d) = d_ncol d /\ NoDup (d_names d) /\
   d_uidcol d = zseq (d_ncol d) /\
   zlen (d_array d) = d_ncol d * d_nech d /\
   length (d_loc d) = 29%nat /\
@@ -46,11 +46,13 @@ Definition wf_faults (l : list polyline) : Prop := Forall wf_polyline l.
 (* ------------------------------------------------------------------ boolean versions *)
 Fixpoint memZ (x : Z) (l : list Z) : bool := match l with [] => false | y :: r => (x =? y) || memZ x r end.
 Fixpoint nodupZ (l : list Z) : bool := match l with [] => true | x :: r => negb (memZ x r) && nodupZ r end.
+Fixpoint memL (x : list Z) (l : list (list Z)) : bool := match l with [] => false | y :: r => bytes_eqb y x || memL x r end.
+Fixpoint nodupL (l : list (list Z)) : bool := match l with [] => true | x :: r => negb (memL x r) && nodupL r end.
 Fixpoint list_eqZ (a b : list Z) : bool :=
   match a, b with [], [] => true | x :: a', y :: b' => (x =? y) && list_eqZ a' b' | _, _ => false end.
 Definition wf_db_b (d : db) : bool :=
   (0 <=? d_ncol d) && (0 <=? d_nech d) &&
-  (zlen (d_names d) =? d_ncol d) &&
+  (zlen (d_names d) =? d_ncol d) && nodupL (d_names d) &&
   list_eqZ (d_uidcol d) (zseq (d_ncol d)) &&
   (zlen (d_array d) =? d_ncol d * d_nech d) &&
   Nat.eqb (length (d_loc d)) 29 &&
